@@ -16,6 +16,9 @@ def run(tier, seed, replay=None):
     dmd_common.writer_inputs(ck, pyload.module("digital_metadata", symbolic=False))
     dmd_common.populate_contract(ck, pyload.module("digital_metadata", symbolic=False))
     ck.replayers["dmd."] = C13.replay_dmd
+    from checks import filelist_common
+    filelist_common.dmd_file_list_contract(ck, mod)
+    ck.replayers["dmdlist."] = C13.replay_dmd
     ck.replayers["w.place"] = C13.replay_dmd
     ck.replayers["w.gen"] = C13.replay_dmd
     ck.replayers["r.place"] = C13.replay_dmd
